@@ -99,7 +99,7 @@ def run_property(pid, tier, seed=0):
         for m in P.unit_modes(u):
             for d in (P.unit_digits(u, digits) if u in P.PAIR_UNITS else ['u64'] if tier == 'quick' else digits):
                 jobs.append((u, d, m, True))
-    results = RUN.verify_many(jobs, workers=int(os.environ.get('BNV_WORKERS', '5')))
+    results = RUN.verify_many(jobs, workers=int(os.environ.get('BNV_WORKERS', '7')))
     baseline = set(load_json(BASELINE, {}).get('proved', []))
     known = load_json(KNOWN, {'findings': [], 'fixed': []})
     violations = []
@@ -166,7 +166,7 @@ def run_property(pid, tier, seed=0):
     kres = dict(results=[], violations=[], undecided=[], wall_s=0.0, checks=0, harnesses=0)
     if cfg.get('kani', True):
         try:
-            kres = KANI.run_property(pid, tier)
+            kres = KANI.run_property(pid, tier, seed)
         except Exception as ex:
             undecided.append(f'kani run failed: {ex}')
     undecided += kres['undecided']
@@ -177,9 +177,11 @@ def run_property(pid, tier, seed=0):
     lines = []
     seen_generic = set()
     for kv in kres['violations']:
-        finding = match_known(known, pid, kv['harness'], None)
+        finding = match_known(known, pid, kv['harness'], None, kv.get('failed_checks'))
         if finding:
-            lines.append(f"KNOWN-FINDING: property={pid} {finding}")
+            l = f"KNOWN-FINDING: property={pid} {finding}"
+            if l not in lines:
+                lines.append(l)
             continue
         reported += 1
         rp = os.path.join(VERIF, 'build', 'replays', f"{pid}_kani_{kv['harness']}_{kv['mode']}.json")
@@ -231,7 +233,7 @@ def run_property(pid, tier, seed=0):
                             verus_obligations=obligations, verus_discharged=discharged,
                             evaluations=len(functions) + len(kres['results']), distinct_nontrivial=nproved + kpass,
                             rule='one case = one contracted function (per digit type and build mode) whose every obligation Verus discharged, or one Kani harness (full symbolic input domain of one configuration) that passed with its reachability cover satisfied',
-                            kani=dict(harnesses=len(kres['results']), passed=kpass, cbmc_checks=kres['checks'], wall_s=kres['wall_s'], results=kres['results'],
+                            kani=dict(harnesses=len(kres['results']), registered=kres.get('registered'), passed=kpass, cbmc_checks=kres['checks'], wall_s=kres['wall_s'], results=kres['results'],
                                       note='bounded: complete over all inputs of the listed configurations only; never counted as proved'),
                             checker_cmd='verus <generated file> --output-json --time --error-format=json (one file per unit x digit x mode under build/verus/)',
                             trusted_base=ASSUMPTIONS,
@@ -252,9 +254,15 @@ def run_property(pid, tier, seed=0):
     return exit_code
 
 
-def match_known(known, pid, fnkey, res):
+def match_known(known, pid, fnkey, res, failed_checks=None):
+    """a listed finding excuses exactly the recorded failure: same property, same function/harness and,
+    when the entry says so, every failed check must be the recorded one (anything else is a new violation)"""
     for f in known.get('findings', []):
         if f.get('property') == pid and f.get('function') == fnkey:
+            sub = f.get('only_failed_check_contains')
+            if sub is not None and failed_checks is not None:
+                if not failed_checks or any(sub not in c for c in failed_checks):
+                    continue
             return f.get('what', '')
     return None
 
@@ -269,7 +277,7 @@ def rebaseline():
         for m in P.unit_modes(u):
             for d in P.unit_digits(u, P.ALL_DIGITS):
                 jobs.append((u, d, m, False))
-    results = RUN.verify_many(jobs, workers=int(os.environ.get('BNV_WORKERS', '5')))
+    results = RUN.verify_many(jobs, workers=int(os.environ.get('BNV_WORKERS', '7')))
     bad = 0
     for res in results:
         for it in res['items']:
